@@ -26,7 +26,22 @@ type socket struct {
 	recvBuff bufferRotator
 
 	encoder  *gob.Encoder
-	sendBuff bytes.Buffer
+	sendBuff markBuffer
+	// type descriptors emitted by the encoder for a message that was not sent;
+	// the decoder needs them before the next value
+	pendingDesc []byte
+}
+
+// markBuffer remembers where the last Write started. The gob encoder issues one
+// Write per gob message: type descriptors first, the value last.
+type markBuffer struct {
+	bytes.Buffer
+	mark int
+}
+
+func (b *markBuffer) Write(p []byte) (int, error) {
+	b.mark = b.Len()
+	return b.Buffer.Write(p)
 }
 
 // bufferRotator replace the underlying Buffers to avoid allocation
@@ -69,15 +84,25 @@ func (s *socket) RecvMsg(e any) (msg unixsocket.Msg, err error) {
 
 func (s *socket) SendMsg(e any, msg unixsocket.Msg) error {
 	s.sendBuff.Reset()
+	s.sendBuff.Buffer.Write(s.pendingDesc)
 	if err := s.encoder.Encode(e); err != nil {
 		return fmt.Errorf("send msg: encode: %w", err)
 	}
 	if s.sendBuff.Len() > bufferSize {
+		s.keepDesc()
 		return fmt.Errorf("send msg: %w: %d > %d", errPayloadTooLarge, s.sendBuff.Len(), bufferSize)
 	}
 
 	if err := s.Socket.SendMsg(s.sendBuff.Bytes(), msg); err != nil {
+		s.keepDesc()
 		return fmt.Errorf("send msg: %w", err)
 	}
+	s.pendingDesc = s.pendingDesc[:0]
 	return nil
+}
+
+// keepDesc saves the type descriptors of a message that was encoded but not sent.
+// The encoder describes each type only once, so they have to travel with the next message.
+func (s *socket) keepDesc() {
+	s.pendingDesc = append(s.pendingDesc[:0], s.sendBuff.Bytes()[:s.sendBuff.mark]...)
 }
